@@ -19,6 +19,7 @@ import (
 type PathQuery struct {
 	PC    []string
 	Goal  string
+	Alt   string // equivalent formulation of Goal (other triggers); the obligation holds if either is proved
 	Trail string
 }
 
@@ -57,6 +58,9 @@ type Exec struct {
 	retPaths int
 	kinds    map[string]int
 	refKey   map[string]bool
+	readLog  map[string]bool            // when non-nil: heap keys read (for opaque spec functions)
+	opReads  map[string][]string        // opaque func -> heap keys its body reads
+	opSyms   map[string]string          // opaque func + heap tuple -> UF symbol
 	Observe  map[string]string // name -> contract expression evaluated in the entry state (for counterexample replay)
 	obsTerms map[string]string
 	coverPC  [][]string
@@ -88,23 +92,44 @@ func (x *Exec) oblige(st *State, name, kind, src, goal string) {
 	}
 	pc := append([]string(nil), st.pc...)
 	for _, g := range splitGoal(goal) {
-		o.Queries = append(o.Queries, PathQuery{PC: pc, Goal: g, Trail: strings.Join(st.trail, ">")})
+		o.Queries = append(o.Queries, PathQuery{PC: pc, Goal: g.goal, Alt: g.alt, Trail: strings.Join(st.trail, ">")})
 	}
 }
 
 // splitGoal distributes a goal over its top-level conjunctions (also under implications and
 // universal quantifiers), so that each solver query proves one small fact.
-func splitGoal(goal string) []string {
+type goalPart struct{ goal, alt string }
+
+func splitGoal(goal string) []goalPart {
 	if len(goal) < 400 {
-		return []string{goal}
+		return []goalPart{{goal: goal}}
 	}
-	var parts []string
+	var parts []goalPart
 	var rec func(n *sx, wrap func(string) string, depth int)
 	rec = func(n *sx, wrap func(string) string, depth int) {
 		if depth < 8 && n.kids != nil {
 			switch n.head() {
 			case "and":
+				skip := map[string]bool{}
 				for _, k := range n.kids[1:] {
+					ks := k.String()
+					if skip[ks] {
+						continue
+					}
+					if alt, ok := altVariant[ks]; ok {
+						// the two equivalent variants of one quantified formula: one query, either may be proved
+						for _, k2 := range n.kids[1:] {
+							if k2.String() == parseSx(alt).String() {
+								skip[k2.String()] = true
+								parts = append(parts, goalPart{goal: wrap(ks), alt: wrap(k2.String())})
+								ks = ""
+								break
+							}
+						}
+						if ks == "" {
+							continue
+						}
+					}
 					rec(k, wrap, depth) // flattening conjunctions does not count as nesting
 				}
 				return
@@ -135,11 +160,11 @@ func splitGoal(goal string) []string {
 				}
 			}
 		}
-		parts = append(parts, wrap(n.String()))
+		parts = append(parts, goalPart{goal: wrap(n.String())})
 	}
 	rec(parseSx(goal), func(s string) string { return s }, 0)
-	if len(parts) > 80 || len(parts) == 0 {
-		return []string{goal}
+	if len(parts) > 600 || len(parts) == 0 {
+		return []goalPart{{goal: goal}}
 	}
 	return parts
 }
